@@ -2069,6 +2069,47 @@ impl GraphEngine {
         }
     }
 
+    /// Re-derives the engine's in-memory state from the store after the store's content was
+    /// replaced underneath the engine (`TensorStore::restore_from_bytes`, i.e. `ROLLBACK TO`).
+    ///
+    /// Property indexes and constraints are caches of `_graph_idx:` / `_graph_constraint:` keys;
+    /// without this they keep describing the content from before the restore (a constraint that
+    /// no longer exists is still enforced, a restored one is not). Id counters never move backwards.
+    pub fn resync_after_restore(&self) {
+        let indexes = Self::rebuild_indexes_from_store(&self.store);
+        let label_index_exists = indexes.contains_key(&(IndexTarget::Node, "_label".to_string()));
+        let edge_type_index_exists =
+            indexes.contains_key(&(IndexTarget::Edge, "_edge_type".to_string()));
+        *self.btree_indexes.write() = indexes;
+        self.label_index_initialized
+            .store(label_index_exists, Ordering::Release);
+        self.edge_type_index_initialized
+            .store(edge_type_index_exists, Ordering::Release);
+        *self.constraints.write() = Self::load_constraints_from_store(&self.store);
+
+        let mut max_node_id = 0u64;
+        for key in self.store.scan("node:") {
+            if key.contains(":out") || key.contains(":in") {
+                continue;
+            }
+            if let Some(id) = key.strip_prefix("node:").and_then(|s| s.parse::<u64>().ok()) {
+                max_node_id = max_node_id.max(id);
+            }
+        }
+        self.node_counter.fetch_max(max_node_id, Ordering::SeqCst);
+        let mut max_edge_id = 0u64;
+        for key in self.store.scan("edge:") {
+            if let Some(id) = key
+                .strip_prefix("edge:")
+                .and_then(|s| s.rsplit(':').next())
+                .and_then(|s| s.parse::<u64>().ok())
+            {
+                max_edge_id = max_edge_id.max(id);
+            }
+        }
+        self.edge_counter.fetch_max(max_edge_id, Ordering::SeqCst);
+    }
+
     /// Rebuild in-memory indexes from persistent store metadata.
     fn rebuild_indexes_from_store(
         store: &TensorStore,
